@@ -70,6 +70,21 @@ pub(crate) async fn remember_query_with_data_dir(
     let mut entry = MaterializationEntry::new(spec.clone(), catalog.root_dir())
         .map_err(|e| format!("Failed to create catalog entry: {e}"))?;
 
+    // Same barrier as SHOW: a memtable whose flush has written its segment files but not yet
+    // released its passive buffer is scanned twice, and the raw batches below are not
+    // de-duplicated on event_id.
+    let flush_errors = shard_manager.wait_for_flush_completion().await;
+    if !flush_errors.is_empty() {
+        let joined = flush_errors
+            .into_iter()
+            .map(|(id, err)| format!("shard {id}: {err}"))
+            .collect::<Vec<_>>()
+            .join(", ");
+        return Err(format!(
+            "Failed to wait for shard flushes before REMEMBER: {joined}"
+        ));
+    }
+
     let pipeline = QueryExecutionPipeline::new(&query_command, shard_manager, Arc::clone(registry));
 
     let mut stream = pipeline
